@@ -190,8 +190,18 @@ def leanchecker(modules):
 def cc(out, sources, extra=(), san=True, lock=None):
     """Compile a harness from the *current* REPO tree. Returns (ok, log)."""
     os.makedirs(os.path.dirname(out), exist_ok=True)
-    cmd = ["gcc"] + (SAN if san else ["-O1"]) + CFLAGS_COMMON + list(extra) + ["-o", out] + list(sources)
-    r = sh(cmd)
+    return _link(out, ["gcc"] + (SAN if san else ["-O1"]) + CFLAGS_COMMON + list(extra), list(sources))
+
+
+def _link(out, cmd, inputs):
+    """compile/link to a private temporary name and rename into place: a check running concurrently (same tree, same binary) keeps
+    executing the old inode instead of failing with ETXTBSY or picking up a half-written file"""
+    tmp = f"{out}.tmp{os.getpid()}"
+    r = sh(cmd + ["-o", tmp] + inputs)
+    if r.returncode == 0:
+        os.replace(tmp, out)
+    elif os.path.exists(tmp):
+        os.unlink(tmp)
     return r.returncode == 0, r.stdout
 
 
@@ -264,12 +274,12 @@ def build_wrapped(out, harness_src, wraps, flags=None, tag="asan", extra=()):
     wl = os.path.join(d, "wrapped-" + hashlib.sha1(" ".join(wraps).encode()).hexdigest()[:8] + ".o")
     with Lock("lib-" + tag):
         if not os.path.exists(wl):
-            r = sh(["ld", "-r"] + [f"--wrap={w}" for w in wraps] + ["-o", wl] + objs)
+            r = sh(["ld", "-r"] + [f"--wrap={w}" for w in wraps] + ["-o", wl + ".tmp"] + objs)
             if r.returncode != 0:
                 return False, r.stdout
+            os.replace(wl + ".tmp", wl)
     srcs = [harness_src] if isinstance(harness_src, str) else list(harness_src)
-    r = sh(["gcc"] + flags + CFLAGS_COMMON + [f"-I{VERIF}/harness"] + list(extra) + ["-o", out] + srcs + [wl, "-lpthread"])
-    return r.returncode == 0, r.stdout
+    return _link(out, ["gcc"] + flags + CFLAGS_COMMON + [f"-I{VERIF}/harness"] + list(extra), srcs + [wl, "-lpthread"])
 
 
 def write_case(prop, name, lines, tier, seed, ext="ops"):
